@@ -111,6 +111,8 @@ structure RecOK (c : Cfg) (r : Rec) : Prop where
   lockedSL : r.locked = true → c.sl = true
   lockedStill : r.locked = true → r.speed = zeros (c.links.length + 1) ∧ r.acc = zeros (c.links.length + 1)
   cur : r.current = c.motorCurrent r.pwm (r.dtorque.headD 0)
+  forces : gearForces c.gears r.dtorque r.ltorque = .ok r.force
+  stresses : gearStresses c.gears r.force = .ok (r.bending, r.contactSq)
 
 theorem lastD_of_getLast? {l : List Q} {x : Q} (h : l.getLast? = some x) : lastD l = x := by
   unfold lastD; rw [List.getLastD_eq_getLast?, h]; rfl
@@ -140,43 +142,51 @@ theorem compute_recOK (c : Cfg) (s s' : St) (t : Q) (hinv : s.locked = true → 
   split at h
   · simp at h
   · rename_i pwm hp
-    simp only [Except.ok.injEq] at h
-    subst h
-    refine ⟨_, rfl, ?_, rfl, rfl, ?_, ?_, ?_, rfl, rfl, rfl⟩
-    · constructor
-      · exact upstream_coupled _ _
-      · dsimp only; split
-        · simpa using zeros_coupled (c.links.map (·.ratio))
-        · exact upstream_coupled _ _
-      · dsimp only; split
-        · simpa using zeros_coupled (c.links.map (·.ratio))
-        · exact upstream_coupled _ _
-      · exact (driveDown_ok _ _).1
-      · exact (driveDown_ok _ _).2
-      · exact (loadUp_ok _ _).1
-      · dsimp only
-        rw [(loadUp_ok _ _).2, lastD_of_getLast? (upstream_getLast _ _)]
-        congr 2
-        split
-        · rw [lastD_zeros]
-        · rw [lastD_of_getLast? (upstream_getLast _ _)]
-      · rfl
-      · intro hl
-        dsimp only at hl ⊢
-        simp only [hl]
-        simp [lastD_of_getLast? (upstream_getLast _ _)]
-      · intro hl; exact checkLock_sl hinv hl
-      · intro hl
-        dsimp only at hl ⊢
-        simp only [hl, if_true, and_self]
-      · rfl
-    · dsimp only; rw [lastD_of_getLast? (upstream_getLast _ _)]
-    · dsimp only; split
-      · rw [lastD_zeros]
-      · rw [lastD_of_getLast? (upstream_getLast _ _)]
-    · dsimp only; split
-      · rw [lastD_zeros]
-      · rw [lastD_of_getLast? (upstream_getLast _ _)]
+    split at h
+    · simp at h
+    · rename_i force hforce
+      split at h
+      · simp at h
+      · rename_i bending contactSq hstress
+        simp only [Except.ok.injEq] at h
+        subst h
+        refine ⟨_, rfl, ?_, rfl, rfl, ?_, ?_, ?_, rfl, rfl, rfl⟩
+        · constructor
+          · exact upstream_coupled _ _
+          · dsimp only; split
+            · simpa using zeros_coupled (c.links.map (·.ratio))
+            · exact upstream_coupled _ _
+          · dsimp only; split
+            · simpa using zeros_coupled (c.links.map (·.ratio))
+            · exact upstream_coupled _ _
+          · exact (driveDown_ok _ _).1
+          · exact (driveDown_ok _ _).2
+          · exact (loadUp_ok _ _).1
+          · dsimp only
+            rw [(loadUp_ok _ _).2, lastD_of_getLast? (upstream_getLast _ _)]
+            congr 2
+            split
+            · rw [lastD_zeros]
+            · rw [lastD_of_getLast? (upstream_getLast _ _)]
+          · rfl
+          · intro hl
+            dsimp only at hl ⊢
+            simp only [hl]
+            simp [lastD_of_getLast? (upstream_getLast _ _)]
+          · intro hl; exact checkLock_sl hinv hl
+          · intro hl
+            dsimp only at hl ⊢
+            simp only [hl, if_true, and_self]
+          · rfl
+          · exact hforce
+          · exact hstress
+        · dsimp only; rw [lastD_of_getLast? (upstream_getLast _ _)]
+        · dsimp only; split
+          · rw [lastD_zeros]
+          · rw [lastD_of_getLast? (upstream_getLast _ _)]
+        · dsimp only; split
+          · rw [lastD_zeros]
+          · rw [lastD_of_getLast? (upstream_getLast _ _)]
 
 /-- the invariant carried along every history -/
 def StInv (c : Cfg) (s : St) : Prop := (∀ r ∈ s.recs, RecOK c r) ∧ (s.locked = true → c.sl = true)
@@ -289,7 +299,11 @@ theorem compute_rec (c : Cfg) (s s' : St) (t : Q) (h : compute c s t = .ok s') :
   simp only at h
   split at h
   · simp at h
-  · simp only [Except.ok.injEq] at h; subst h; exact ⟨_, rfl, rfl⟩
+  · split at h
+    · simp at h
+    · split at h
+      · simp at h
+      · simp only [Except.ok.injEq] at h; subst h; exact ⟨_, rfl, rfl⟩
 
 theorem stepAt_recs (c : Cfg) (dt : Q) (s s' : St) (t : Q) (h : stepAt c dt s t = .ok s') :
     ∃ r, s'.recs = s.recs ++ [r] ∧ r.time = t := by
